@@ -175,6 +175,24 @@ def gen_cases(rng, tier):
         c = _one(rng, tier, est="gw", n=n, m=m, ploidy=2, phased=False)
         c["wt"] = {"a": [-1.0 / 16] * m}; c["pref"] = {"s": 0.5}
         cases.append(c)
+    # wide matrices: more markers than an int8 (127) / uint8 (255) accumulator can count, few taxa, mostly homozygous and
+    # similar taxa so that the Gram sums are large (a narrow-integer intermediate wraps only here)
+    for est in EST:
+        for (n, m, ploidy, phased) in ((2, 130, 2, False), (3, 160, 2, True), (2, 260, 2, False), (2, 140, 1, False)) if tier == "quick" else \
+                ((2, 130, 2, False), (3, 160, 2, True), (2, 260, 2, False), (2, 140, 1, False), (3, 300, 2, False), (2, 520, 2, True), (4, 200, 1, True)):
+            c = _one(rng, tier, est=est, n=n, m=m, ploidy=ploidy, phased=phased)
+            mat = c["mat"]
+            for j in range(m):
+                if rng.random() < 0.85:
+                    v = rng.choice([0, ploidy, ploidy])
+                    if phased:
+                        for ph in range(ploidy):
+                            for i in range(n): mat[ph][i][j] = 1 if v else 0
+                    else:
+                        for i in range(n): mat[i][j] = v
+            if c["pref"] is not None and "a" in c["pref"]: c["pref"] = {"s": 0.5} if est != "gw" else None
+            if c["wt"] is not None and "a" in c["wt"]: c["wt"] = {"s": 1.0}
+            cases.append(c)
     N = 350 if tier == "quick" else 4000
     for _ in range(N):
         cases.append(_one(rng, tier))
